@@ -106,3 +106,24 @@ pub fn root_alloc(n: usize) -> usize {
 pub fn root_dyn(f: &dyn Fn(u64) -> u64, g: fn(u64) -> u64) -> u64 {
     f(1) + g(2)
 }
+
+/// C18: a rounding primitive that decides a case without consulting its callback
+pub fn ctl_skip_callback<Cb: Fn(u64, i32) -> u64>(x: u64, shift: i32, cb: Cb) -> u64 {
+    if shift > 64 {
+        return 0;
+    }
+    cb(x, shift)
+}
+pub fn ok_always_callback<Cb: Fn(u64, i32) -> u64>(x: u64, shift: i32, cb: Cb) -> u64 {
+    if shift > 64 {
+        return cb(x, 64);
+    }
+    cb(x, shift)
+}
+pub fn root_callbacks(x: u64, s: i32) -> u64 {
+    ctl_skip_callback(x, s, |a, b| a >> (b as u32 & 63)) + ok_always_callback(x, s, |a, b| a >> (b as u32 & 63))
+}
+/// C12: wrapping arithmetic on limbs
+pub fn ctl_wrapping_limb(a: u64, b: u64, carry: bool) -> u64 {
+    a.wrapping_add(b).wrapping_add(carry as u64)
+}
